@@ -63,8 +63,12 @@ CHECKS["C19"] = {
              "derived values), every option is used on every successful path (this obligation found `inspect --measurement` being ignored, "
              "repaired by a fix: commit), the library call is on every successful path, no try/except swallows a library exception, backend and "
              "optimiser are set before the inference call (all 7 backend spellings x 2 optimisers), file and stdout branches serialise the same "
-             "object with the same indent/sort_keys, and the emitted object is the library result."),
-    "note": ("click's own parsing is assumed; loops over option tuples are executed once with a generic element (dataflow abstraction); the "
+             "object with the same indent/sort_keys, and the emitted object is the library result; the optimizer is registered with the backend that "
+             "is current AFTER the requested switch (get_backend modelled per number of earlier set_backend calls); a repeated --optconf key takes its "
+             "last value; `inspect` is additionally executed on a concrete-structured workspace (channels listed against their sort order, shared "
+             "modifier names, two measurements) through the real Workspace / Model code and every table entry of the dumped object and the printed "
+             "channel table is compared with what the library reports."),
+    "note": ("click's own parsing is assumed; loops over option tuples are executed with two generic elements (dataflow abstraction); the "
              "library calls are uninterpreted here (their values are C05-C09/C16-C18); options_from_eqdelimstring string handling not covered"),
     "technique": "contract-based deductive verification: symbolic execution of the real command bodies, forwarding/dataflow obligations over logged uninterpreted calls; CliRunner replay",
 }
